@@ -28,7 +28,10 @@ def run(ck, P):
         sites.setdefault(topic, []).append(ev)
         ck.ob("C19.1-SITES", ev.fn.site("emit %s" % topic), topic in want and want[topic] == ev.fn.name,
               "%s emitted at line %d in %s" % (topic, ev.line, ev.fn.name))
-    ck.need(set(want) <= set(sites), "emission site vanished: %s" % sorted(set(want) - set(sites)))
+    for t in sorted(set(want) - set(sites)):
+        ck.ob("C19.1-SITES", "%s:%s:emit %s" % (MODC if "MOD_ST" in t else CTXC, want[t], t), False,
+              "%s is never emitted: %s no longer announces its transition" % (t, want[t]))
+        sites[t] = []
     ck.ob("C19.1-SITES", tsm.site("private"), not tsm.public, "tell_system_pubsub_msg is not exported", nontrivial=False)
 
     # ------------------------------------------------------------------ 2. one per transition
@@ -138,6 +141,7 @@ def run(ck, P):
     # ------------------------------------------------------------------ 4. CTX_STOPPED is delivered by the final flush
     ck.rule("C19.4-STOPPED-DELIVERED", "R-MUST-PASS: in loop_stop the CTX_STOPPED emission precedes the flush pass over the modules, which "
             "precedes poll_clear", floor=1)
+    ck.need(sites["LIBMODULE_CTX_STOPPED"], "CTX_STOPPED emission vanished")
     em = sites["LIBMODULE_CTX_STOPPED"][0]
     fl = [e for e in lp.calls("m_map_iterate") if "flush_pubsub_msgs" in X.cg.pt.vals(e.args[1], lp)]
     pc = list(lp.calls("poll_clear"))
